@@ -345,6 +345,9 @@ def run_shard(shard) -> Result:
             subsets = [(p,) for p in nodes] + list(itertools.combinations(nodes, 2))
             if n > 4 and shard['tier'] == 'quick':
                 subsets = subsets[:6]
+            # the order in which peaks are supplied must not matter: every ORDER of every 3 peaks
+            if len(nodes) >= 3 and (n <= 4 or shard['tier'] == 'thorough'):
+                subsets += list(itertools.permutations(nodes[:4], 3))
             for peaks in subsets:
                 eval_percolation(F, shard['dirs'], list(peaks), res)
         res.sample({'percolation_shape': shape, 'directions': shard['dirs']})
@@ -358,6 +361,9 @@ def run_shard(shard) -> Result:
                     for ds in DIRSETS:
                         eval_percolation(F, ds, [nodes[0]], res)
                         eval_percolation(F, ds, [nodes[-1], nodes[len(nodes) // 2]], res)
+                        trip = [nodes[0], nodes[len(nodes) // 3], nodes[-2]]
+                        for perm in itertools.permutations(trip):
+                            eval_percolation(F, ds, list(perm), res)
         res.sample({'percolation_family_shapes': [(2, 3, 4), (3, 3, 3)]})
     res.stats[f'queries_{kind}'] += res.evals
     return res
